@@ -458,6 +458,27 @@ impl C03 {
                 }
             }
         }
+        // length ladders: one construct repeated n times, no nesting
+        let lengths: Vec<usize> = match self.ctx.tier {
+            Tier::Quick => vec![1000, 100_000],
+            Tier::Thorough => vec![10, 1000, 10_000, 100_000, 1_000_000],
+        };
+        for shape in [
+            "flat-list", "flat-dict", "many-rows", "many-cols", "many-meta", "long-str", "long-str-escapes", "long-number", "long-fraction", "long-uri", "long-ref", "long-unit",
+            "json-flat-list", "json-flat-dict", "json-long-str", "json-many-rows",
+        ] {
+            for n in &lengths {
+                let doc = gen_zinc::long_doc(shape, *n);
+                let sinks: &[&str] = if shape.starts_with("json") { &["json-slice", "json-reader"] } else if shape.starts_with("many-") { &["zinc-value", "zinc-rows"] } else { &["zinc-value"] };
+                for sink in sinks {
+                    let mut c = Case::new("C03", sink, &doc);
+                    c.extra.insert("nest_shape".into(), shape.into());
+                    c.extra.insert("nest_depth".into(), (*n as u64).into());
+                    c.origin = format!("length ladder {shape} n={n}");
+                    cases.push(c);
+                }
+            }
+        }
         cases
     }
 }
